@@ -24,7 +24,7 @@ CHECKS = {
     },
     "C02": {
         "level": "exploration",
-        "rule": "rapid-generated scripts biased to fork trees (fork depth 1-30, lighter / exact tie / heavier by length or by difficulty, valid or invalid at a position, forks below/at/above checkpoints, tip on a checkpoint), revealed by any peer in any order; per delivered headers message an oracle computes from the tree and the pre-state the set of allowed post-states (KEEP / ADOPT / EITHER / checkpoint-failure truncation) and compares the stored chain; work-monotonicity and fork-floor invariants are checked on every step. Non-trivial = some delivered batch reached the reorganisation branch (parent known, not the tip); distinct = distinct case JSON",
+        "rule": "rapid-generated scripts biased to fork trees (fork depth 1-30, lighter / exact tie / heavier by length or by difficulty, valid or invalid at a position, forks below/at/above checkpoints, tip on a checkpoint), revealed by any peer in any order; per delivered headers message an oracle computes from the tree and the pre-state the set of allowed post-states (KEEP / ADOPT / EITHER / checkpoint-failure truncation) and compares the stored chain; work-monotonicity and fork-floor invariants are checked on every step. Non-trivial = some delivered batch reached the reorganisation branch (parent known, not the tip); distinct = distinct case JSON Unit headerlist: the bounded in-memory header list the block manager walks when it weighs a fork (capacity 10 000 in the client, which no generated world reaches) against a slice model with capacities 1-16, so that the ring wraps many times: Back, Front, the Prev() walk and Ancestor(height) after every push / reset. Non-trivial there = the ring wrapped.",
         "assumptions": NETSIM_ASSUME + [
             "a batch running past the next header checkpoint may be adopted only up to the checkpoint (the client re-requests the rest): both outcomes are accepted",
             "ADOPT of a heavier fork is asserted only when IsCurrent() held before the message (the sender is then certainly listened to)",
@@ -33,6 +33,9 @@ CHECKS = {
             {"name": "netsim", "module": "harness", "pkg": "./checks/c02", "test": "TestC02", "tags": "verif",
              "quick": {"checks": 40, "shards": 16, "timeout": 600},
              "thorough": {"checks": 500, "shards": 16, "timeout": 3600, "shrink": "60s"}},
+            {"name": "headerlist", "module": "harness", "pkg": "./checks/hlist", "test": "TestC02HeaderList", "tags": "verif",
+             "quick": {"checks": 2000, "shards": 4, "timeout": 300},
+             "thorough": {"checks": 100000, "shards": 8, "timeout": 1800, "shrink": "30s"}},
         ],
     },
     "C07": {
